@@ -161,6 +161,13 @@ def needSlot (p0 p1 : Edge) (i0 i1 : Nat) (x : Nat) : Option Src :=
 the child's smaller conditioned variable and `parents[1]` the larger one. -/
 def flowOK (e p0 p1 : Edge) : Bool := p0.cond.contains e.L && p1.cond.contains e.R
 
+/-- strict `(L, R)` lexicographic order: the key of `Edge.sort_edge`. -/
+def keyLt (p q : Edge) : Bool := p.L < q.L || (p.L == q.L && p.R < q.R)
+
+/-- the code's invariant: `parents = Edge.sort_edge([…, …])`, i.e. `parents[1]` does not sort
+strictly before `parents[0]` (all three tree builders sort before `get_child_edge`). -/
+def sortedOK (p0 p1 : Edge) : Bool := !keyLt p1 p0
+
 /-- variables of an edge are pairwise distinct. -/
 def nodupB : List Nat → Bool
   | [] => true
@@ -168,7 +175,8 @@ def nodupB : List Nat → Bool
 
 def sameSet (A B : List Nat) : Bool := A.all (B.contains ·) && B.all (A.contains ·)
 
-/-- edge `e` of a tree above the first is what `get_child_edge` builds from its parents. -/
+/-- edge `e` of a tree above the first is what `get_child_edge` builds from its parents, the parents
+are in `sort_edge` order, and the silent hypothesis `flowOK` holds. -/
 def childOK (prev : Tree) (e : Edge) : Bool :=
   match e.parents with
   | none => false
@@ -176,7 +184,8 @@ def childOK (prev : Tree) (e : Edge) : Bool :=
     match prev[i0]?, prev[i1]? with
     | some p0, some p1 =>
       match identify p0 p1 with
-      | .ok (l, r, D) => l == e.L && r == e.R && sameSet D e.D && nodupB e.D && flowOK e p0 p1
+      | .ok (l, r, D) =>
+        l == e.L && r == e.R && sameSet D e.D && nodupB e.D && flowOK e p0 p1 && sortedOK p0 p1
       | .error _ => false
     | _, _ => false
 
